@@ -3,7 +3,7 @@
   The model runs with the lists regenerated from the source (`Gen/Auth.lean`), the concrete
   normalisations and the key-space machine as dispatch (database 0).
 
-  tables                         → preGate=<hexlist> guarded=<hexlist> unknown=<hexlist> allow=<name-hex>:<arm>|… default=<0|1> first=<0|1> names=<n>
+  tables                         → preGate=<hexlist> guarded=<hexlist> unknown=<hexlist> allow=<name-hex>:<arm>|… default=<0|1> first=<0|1> names=<n> unreadable=<n> deferral=<absent|blocked-only|unknown>
   names                          → `|`-joined hex of Gen.allCommandNames
   reset <password-hex|none>      → ok                         (empty dataset, no connections)
   accept <c>                     → state of c afterwards
@@ -114,9 +114,12 @@ def others (s : Srv) (c : Nat) : Srv := { s with conns := removeConn s.conns c }
     makes no prediction for them (class `unknown`; the state is left as if the request had been refused) -/
 def unknownNames : List Bytes := Gen.preGateUnknownGuard.map fun p => nameBytes p.1
 
+/-- the translator could not read the source (`Gen.unreadable`): the tables are inert defaults, no prediction at all -/
+def blind : Bool := !Gen.unreadable.isEmpty
+
 def isUnknown : Req → Bool
-  | .cmd name _ => unknownNames.contains (Code.normLoop name)
-  | _ => false
+  | .cmd name _ => blind || unknownNames.contains (Code.normLoop name)
+  | _ => blind
 
 def doFrame (st : St) (c : Nat) (req : Req) : St × String × String :=
   let (verdict, nowAuthed) := specVerdict st c req
@@ -129,7 +132,8 @@ def step (st : St) (ws : List String) : St × String :=
   | ["tables"] =>
     (st, s!"preGate={hexList tree.preGate} guarded={hexList (Gen.preGateGuarded.map nameBytes)} unknown={hexList unknownNames} allow=" ++
       String.intercalate "|" (tree.allow.map fun p => toHex p.1 ++ ":" ++ showArm p.2) ++
-      s!" default={if Gen.gateDefaultRefuses then 1 else 0} first={if Gen.gateIsFirst then 1 else 0} names={Gen.allCommandNames.length}")
+      s!" default={if Gen.gateDefaultRefuses then 1 else 0} first={if Gen.gateIsFirst then 1 else 0} names={Gen.allCommandNames.length}" ++
+      s!" unreadable={Gen.unreadable.length} deferral={(Gen.deferral.splitOn ":").head!}")
   | ["names"] => (st, hexList (Gen.allCommandNames.map nameBytes))
   | ["reset", pw] =>
     match (if pw == "none" then some none else (ofHex pw).map some) with
@@ -137,7 +141,7 @@ def step (st : St) (ws : List String) : St × String :=
     | none => (st, "bad-op")
   | ["classify", n] =>
     match ofHex n with
-    | some n => (st, if unknownNames.contains (Code.normLoop n) then "unknown" else
+    | some n => (st, if blind || unknownNames.contains (Code.normLoop n) then "unknown" else
         match classify tree n with | .pregate => "pregate" | .allowed => "allowed" | .refused => "refused")
     | none => (st, "bad-op")
   | ["norm", n] =>
